@@ -294,6 +294,19 @@ func (c *Ctx) anchoredResolver(R *ssa.Function) (string, string) {
 			}
 			return ""
 		}
+		// a module helper computing the base: each of its results is judged inside it
+		if hc, ok := base.(*ssa.Call); ok && !hc.Call.IsInvoke() && hc.Call.StaticCallee() != nil && prog.InModule(hc.Call.StaticCallee()) && hc.Call.StaticCallee().Blocks != nil {
+			h := hc.Call.StaticCallee()
+			for _, ret := range an.Returns(h) {
+				if len(ret.Results) == 0 {
+					continue
+				}
+				if why := anchored(an.StripConv(an.Result(ret, 0)), ret, nil, 0, depth+1); why != "" {
+					return why
+				}
+			}
+			return ""
+		}
 		return "the result is joined onto something other than a configured base directory or the home directory: " + an.Term(base)
 	}
 	p := ssa.Value(R.Params[len(R.Params)-1])
